@@ -160,6 +160,44 @@ def _run_main(ctx):
         shutil.rmtree(tmpdir, ignore_errors=True)
 
 
+def _field_named_keys(ctx):
+    """metadata whose keys are spelled like the node's own constructor fields (`input_shape`, `stride`, `tau`, ...) and whose
+    values look like values of those fields, on graphs with erased annotations: construction, the type check and inference
+    give what they give without the metadata"""
+    rng = ctx.rng
+    for _ in range(ctx.n(60, 240)):
+        bare, _, erased = gen.consistent_graph(rng, max_nodes=5, erase=True, wrong_output=False)
+        bare = strip_meta(bare)
+        withm = copy.deepcopy(bare)
+        hit = 0
+        for name, rec in withm["nodes"]:
+            fields = sorted(gen._init_fields(rec["type"]) - {"metadata"}) + ["input_shape", "input_type", "output_type"]
+            entries = []
+            for f in rng.sample(fields, min(len(fields), rng.randrange(1, 4))):
+                v = rng.choice([gen.arr(rng, [2], "<i8"), gen.pyint(rng.randrange(1, 6)), {"t": [gen.pyint(5), gen.pyint(5)]},
+                                {"a": "<i8", "sh": [3], "x": np.array([2, 5, 5], dtype="<i8").tobytes().hex()}])
+                if not any(k == f for k, _ in entries):
+                    entries.append([f, v])
+            if name in erased or rng.random() < 0.5:
+                rec["kwargs"] = [kv for kv in rec["kwargs"] if kv[0] != "metadata"] + [["metadata", {"d": entries}]]
+                hit += 1
+        case = {"op": "metadata_field_named_keys", "graph": withm}
+        ctx.case(case); ctx.count("field_named_metadata_keys"); ctx.count("nodes_with_field_named_keys", hit)
+        s0, _ = run_graph_ops(bare, ["check", "infer", "check"])
+        s1, _ = run_graph_ops(withm, ["check", "infer", "check"])
+
+        def scrub(x):
+            if isinstance(x, dict):
+                return {k: (None if k == "meta" else scrub(v)) for k, v in x.items()}
+            if isinstance(x, list):
+                return [scrub(v) for v in x]
+            return x
+        if scrub(s0) != scrub(s1):
+            ctx.violate(case, "metadata keyed like constructor fields changed node types or the outcome of the type check / inference",
+                        {"site": "types", "what": "inert-types", "keys": "field-named"},
+                        observed=[list(x) for x in jdiff(scrub(s0), scrub(s1))[:3]])
+
+
 def _copies_are_independent(ctx):
     """metadata of a graph / sub-graph / node with nesting depth >= 2: a copy made through the dictionary form (or a file)
     is edited in place at every depth; the original - its metadata, and the file written from it - stays what it was"""
@@ -205,6 +243,7 @@ def _copies_are_independent(ctx):
 
 def run(ctx):
     _run_main(ctx)
+    _field_named_keys(ctx)
     _copies_are_independent(ctx)
     # history independence: the same call on a live graph object with a history of edits / calls and on a twin rebuilt
     # from its public state (harness/history.py)
